@@ -19,7 +19,8 @@ out=open(f'/verif/logs/seed_{s}.out').read()
 viol=re.findall(r'^VIOLATION property=\S+ replay=(\S+)',out,re.M)
 inc=re.findall(r'^INCONCLUSIVE harness=(\S+?): (.*)$',out,re.M)
 failed=re.findall(r'\[(?:failed|violated)\s*\] (\S+)',out)
-json.dump({"seed":s,"property":p,"check_exit":int(rc),"detected":int(rc)==1,"violations":[x.split('/')[-1] for x in viol],
+crashed=('Traceback' in out or 'SyntaxError' in out) and not viol
+json.dump({"seed":s,"property":p,"check_exit":(3 if crashed else int(rc)),"detected":int(rc)==1 and bool(viol),"violations":[x.split('/')[-1] for x in viol],
            "failing_obligations":sorted(set(failed)),"inconclusive":[f"{a}: {b[:160]}" for a,b in inc][:6],"seconds":int(secs),
            "how":"tools/run_seed_wt.sh (scratch worktree with the patch applied, VERIF_REPO/VERIF_WORK)"},
           open(f'/verif/seeded/{s}/detect.json','w'),indent=1)
